@@ -336,7 +336,14 @@ def run_program(seed, k, mon):
     for step, (t, dt) in enumerate([(0.0, 0.1), (0.3, 0.1), (0.7, 0.05)]):
         ev.nnps.update_domain()
         ev.nnps.update()
-        ev.ae.compute(t, dt)
+        try:
+            ev.ae.compute(t, dt)
+        except Exception as e:
+            # a program inside the documented subset: the compiled evaluator
+            # has no business raising where the documented semantics run
+            return A, ('compute-raises', 'compute %d (t=%g) raised %s: %s '
+                       'after events %s' % (step, t, type(e).__name__,
+                                            str(e)[:200], A['events'][-3:]))
         upd()
         for a in ref.arrays:
             a.rebind()
